@@ -126,6 +126,42 @@ def _action_fns(f):
     return out
 
 
+def _instantiate_generic_option_impl(f, ty):
+    """register (once) a copy of the generic body of `impl<T> From<Option<T>> for Action` with T := ty; returns its id or None"""
+    import copy
+    import re
+    gid = None
+    for bid, bj in f.bodies.items():
+        if bj['generic'] and re.match(r'^G:<core::action::Action as std::convert::From<std::option::Option<(\w+)>>>::from$', bid):
+            par = re.match(r'^G:<core::action::Action as std::convert::From<std::option::Option<(\w+)>>>::from$', bid).group(1)
+            if par not in ('f64', 'f32', 'i8'):
+                gid = (bid, par)
+    if gid is None:
+        return None
+    bid, par = gid
+    new_id = '<core::action::Action as std::convert::From<std::option::Option<%s>>>::from [instance of the generic impl]' % ty
+    if new_id in f.bodies:
+        return new_id
+    tyj = {'t': 'float' if ty.startswith('f') else 'int', 'n': ty, 's': ty}
+    pat = re.compile(r'\b%s\b' % re.escape(par))
+
+    def sub(x):
+        if isinstance(x, dict):
+            if x.get('t') == 'param' and x.get('n') == par:
+                return dict(tyj)
+            return {k: sub(v) for k, v in x.items()}
+        if isinstance(x, list):
+            return [sub(v) for v in x]
+        if isinstance(x, str):
+            return pat.sub(ty, x)
+        return x
+    nb = sub(copy.deepcopy(f.bodies[bid]))
+    nb['id'] = new_id
+    nb['generic'] = False
+    f.bodies[new_id] = nb
+    return new_id
+
+
 SIGN_OF_VARIANT = {'Buy': '+', 'Sell': '-', 'None': '0'}
 
 
@@ -348,6 +384,9 @@ def a05_action_algebra(ctx):
                      ('i8', (('positive', (1, 127), {'Buy'}), ('negative', (-128, -1), {'Sell'}), ('zero', (0, 0), {'None'})))):
         d = '<core::action::Action as std::convert::From<std::option::Option<%s>>>::from' % ty
         fid = by_def.get(d)
+        if fid is None:
+            # one generic `impl<T: ..> From<Option<T>> for Action`: decided on its generic body with T instantiated by the type of the row
+            fid = _instantiate_generic_option_impl(f, ty)
         if fid is None:
             continue
         cases = [('none', None, {'None'})] + [(lab, pin, want) for lab, pin, want in pins]
